@@ -275,12 +275,18 @@ def units(tier, seed):
     chunk = 128
     for i in range(0, len(dsets), chunk):
         out.append({"kind": "defective", "sets": dsets[i:i + chunk]})
+    for name in LARGE_CONTENTS:
+        for cc in db.COMPRESSIONS:
+            if any(c == cc for c, _d in large_pairs(name, tier)):
+                out.append({"kind": "large", "content": name, "cc": cc})
     return out
 
 
 def unit_cost(u, tier):
     if u["kind"] == "defective":
         return 1
+    if u["kind"] == "large":
+        return 1000 * len([1 for c, _d in large_pairs(u["content"], tier) if c == u["cc"]])
     c = u["content"]
     return 10 + 3 * len(c["data"]) + len(c["scripts"])
 
@@ -469,7 +475,241 @@ def _compress_cached(tar, kind):
     return _ccache[key]
 
 
+# ------------------------------------------------------------------------------------------------ large, interleaved
+#
+# Packages whose parts are consumed in MANY physical reads (the decompressors fetch 8 KiB at a time, gzip 128 KiB), queried
+# in interleaved histories on ONE DebFile object: both parts of a DebFile(fileobj=...) share one file object, so every
+# observation depends on the reader re-establishing its place after the other part was read.
+
+CHUNK = {"quick": [4096], "thorough": [4096, 1000, 10000]}
+LARGE_ORDERS = {"quick": [(0, 1, 2), (2, 1, 0)], "thorough": ORDERS}
+LARGE_HISTORIES = {"big-data": ["data-first", "control-first", "stream-data"],
+                   "big-both": ["data-first", "control-first", "stream-data", "stream-both", "stream-two"],
+                   "huge-both": ["data-first", "stream-data", "stream-both"]}
+LARGE_CONTENTS = ["big-data", "big-both", "huge-both"]
+
+
+def large_pairs(name, tier):
+    """compression pairs a large content is run with.  'huge-both' exists for gzip's 128 KiB reads only."""
+    if name != "huge-both":
+        return [(cc, dc) for cc in db.COMPRESSIONS for dc in db.COMPRESSIONS]
+    if tier == "quick":
+        return [("none", "gz"), ("gz", "none"), ("gz", "gz")]
+    return [(cc, dc) for cc in db.COMPRESSIONS for dc in db.COMPRESSIONS if "gz" in (cc, dc)]
+
+
+def large_spec(name, seed):
+    """symbolic content (big members are ["chain", label, n, prefix], see debbuilder.chain_bytes): small enough for a
+    replay file, and everything replay() needs"""
+    x, binary, text = symbols(seed)
+    lab = core.rep(seed, ["a", "b", "c", "d"])
+    n1, n2 = (140000, 70000) if name == "huge-both" else (20000, 70000)
+    data = [["usr/bin/" + x, text], ["big/%d.bin" % n1, ["chain", lab + "1", n1, b""]], ["a b", b"hello\n"],
+            ["big/%d .bin" % n2, ["chain", lab + "2", n2, b""]], ["etc/é", binary]]
+    if name == "huge-both":
+        data = [data[0], data[1], data[2], data[4]]
+    scripts = [[n, script_body(n, seed)] for n in db.SCRIPTS]
+    if name != "big-data":
+        scripts[-1] = ["config", ["chain", lab + "3", 140000 if name == "huge-both" else 20000, b"\x7fELF\x00\xff"]]
+    return {"name": name, "control": [list(p) for p in control_variants(seed)[1]], "scripts": scripts, "data": data}
+
+
+def _mat(v):
+    if isinstance(v, (list, tuple)):
+        assert v[0] == "chain"
+        return db.chain_bytes(v[2], v[1], v[3])
+    return v
+
+
+class Large(object):
+    """materialized large content: the oracle's view (what was packed) and the 2 x 5 compressed parts"""
+
+    def __init__(self, spec):
+        self.fields = [(k, v) for k, v in spec["control"]]
+        self.data = [(n, _mat(c)) for n, c in spec["data"]]
+        self.scripts = [(n, _mat(c)) for n, c in spec["scripts"]]
+        self.md5 = [(db.md5_of(c), n) for n, c in self.data]
+        self.ctrl_members = db.control_files(self.fields, self.scripts, self.md5)
+        self.ctar = db.tar_bytes(self.ctrl_members, with_dirs=False)
+        self.dtar = db.tar_bytes(self.data)
+        self.members = {"data": dict(self.data), "control": dict((m[0], m[1]) for m in self.ctrl_members)}
+        # the biggest member of the control part: what a control-side stream reads
+        self.big_ctrl = max(self.ctrl_members, key=lambda m: len(m[1]))[0]
+
+    def raw(self, cc, dc, order):
+        trio = [(db.INFO, db.INFO_DATA), (db.part_name("control", cc), _compress_cached(self.ctar, cc)),
+                (db.part_name("data", dc), _compress_cached(self.dtar, dc))]
+        return db.assemble([trio[i] for i in order])
+
+
+def history_ops(hist, lg, chunk):
+    """the operations of one interleaved history (all on one DebFile object).  Operations:
+       ["dget", name, spelling] data.get_content      ["dhas", name, spelling] data.has_file
+       ["ctl"] debcontrol()    ["scr"] scripts()    ["md5"] md5sums()    ["cget", member] control.get_content
+       ["open", handle, part, name, spelling] part.get_file     ["rd", handle, n] handle.read(n)   ["close", handle]"""
+    names = [n for n, _c in lg.data]
+    sizes = dict((n, len(c)) for n, c in lg.data)
+    small = [n for n in names if sizes[n] < 1000]
+    big = sorted([n for n in names if sizes[n] >= 1000], key=lambda n: sizes[n])
+    s0, s1, s2 = small[0], small[1], small[-1]
+    bigger, lesser = big[-1], big[0]
+    bc = lg.big_ctrl
+    if hist == "data-first":
+        return [["dget", s0, "plain"], ["ctl"], ["dget", bigger, "slash"], ["scr"], ["dget", s0, "dot"], ["md5"],
+                ["dget", lesser, "plain"], ["cget", "control"], ["dget", s2, "slash"], ["dhas", s1, "dot"],
+                ["dget", s1, "dot"], ["cget", bc], ["dget", bigger, "dot"], ["ctl"]]
+    if hist == "control-first":
+        return [["ctl"], ["scr"], ["dget", s0, "slash"], ["md5"], ["dget", lesser, "dot"], ["ctl"],
+                ["dget", bigger, "plain"], ["cget", bc], ["dget", s2, "plain"], ["scr"], ["dget", s0, "plain"]]
+
+    def rounds(handles, between):
+        left = dict((h, len(lg.members[p][n])) for h, p, n in handles)
+        ops = [["open", h, p, n, sp] for (h, p, n), sp in zip(handles, ["slash", "plain", "dot"])]
+        i = 0
+        while any(v >= 0 for v in left.values()):
+            for h, _p, _n in handles:
+                if left[h] >= 0:            # one read past the end: must return b""
+                    ops.append(["rd", h, chunk])
+                    left[h] = left[h] - chunk if left[h] > 0 else -1
+            if between:
+                ops.append(between[i % len(between)])
+                i += 1
+        return ops + [["close", h] for h, _p, _n in handles]
+    if hist == "stream-data":
+        return rounds([("h0", "data", bigger)], [["ctl"], ["md5"], ["scr"], ["cget", bc]]) + [["dget", s0, "plain"]]
+    if hist == "stream-both":
+        return rounds([("h0", "data", bigger), ("h1", "control", bc)], []) + [["ctl"], ["dget", s2, "dot"]]
+    if hist == "stream-two":
+        return rounds([("h0", "data", lesser), ("h1", "data", bigger)], [["ctl"], ["cget", bc]])
+    raise ValueError(hist)
+
+
+def _describe(b):
+    if not isinstance(b, bytes):
+        return repr(b)
+    if len(b) <= 64:
+        return "%d bytes %r" % (len(b), b)
+    import hashlib
+    return "%d bytes sha256=%s head=%r" % (len(b), hashlib.sha256(b).hexdigest()[:16], b[:16])
+
+
+def _cmp_bytes(want, got):
+    """None if equal, else (expected, observed) texts naming the first differing offset"""
+    if got == want:
+        return None
+    if not isinstance(got, bytes):
+        return _describe(want), _describe(got)
+    k = next((i for i, (a, b) in enumerate(zip(want, got)) if a != b), min(len(want), len(got)))
+    return (_describe(want) + "; at offset %d: %r" % (k, want[k:k + 16]),
+            _describe(got) + "; at offset %d: %r" % (k, got[k:k + 16]))
+
+
+def check_history(raw, lg, ops):
+    """Run one history on one DebFile(fileobj=...) object; stop at the first wrong observation (after it the position of
+    the streams is no longer known).  -> (list of (sig, expected, observed), observations compared)"""
+    from debian.debfile import DebFile
+    try:
+        deb = DebFile(fileobj=io.BytesIO(raw))
+    except Exception as e:
+        return [("deb/large/open/raises/" + type(e).__name__, "package accepted", _exc(e))], 0
+    prefix = dict(SPELLINGS)
+    handles = {}
+    n = 0
+    for i, op in enumerate(ops):
+        k = op[0]
+        where = "op #%d %r" % (i, op)
+        # what was packed (harness side; a mistake here must propagate) ...
+        if k == "dget":
+            q = prefix[op[2]] + op[1]
+            sig, want, fn = "data/get_content", lg.members["data"][op[1]], lambda: deb.data.get_content(q)
+        elif k == "dhas":
+            q = prefix[op[2]] + op[1]
+            sig, want, fn = "data/has_file", True, lambda: deb.data.has_file(q)
+        elif k == "ctl":
+            sig, want, fn = "debcontrol", lg.fields, lambda: list(deb.debcontrol().items())
+        elif k == "scr":
+            sig, want, fn = "scripts", dict(lg.scripts), deb.scripts
+        elif k == "md5":
+            sig, want, fn = "md5sums", dict((nm.encode("utf-8"), m) for m, nm in lg.md5), deb.md5sums
+        elif k == "cget":
+            sig, want, fn = "control/get_content", lg.members["control"][op[1]], lambda: deb.control.get_content(op[1])
+        elif k == "open":
+            _k, h, pname, name, sp = op
+            q = prefix[sp] + name
+            handles[h] = [None, lg.members[pname][name], 0, pname]
+            sig, want, fn = pname + "/get_file", "a file object", lambda: getattr(deb, pname).get_file(q)
+        elif k == "rd":
+            f, content, pos, pname = handles[op[1]]
+            sig, want, fn = pname + "/stream/read", content[pos:pos + op[2]], lambda: f.read(op[2])
+            handles[op[1]][2] = pos + len(want)
+        elif k == "close":
+            sig, want, fn = handles[op[1]][3] + "/stream/close", None, handles.pop(op[1])[0].close
+        else:
+            raise ValueError(op)
+        # ... and what the package reader says
+        try:
+            got = fn()
+        except Exception as e:
+            return [("deb/large/%s/raises/%s" % (sig, type(e).__name__), "no exception", where + ": " + _exc(e))], n
+        n += 1
+        if k == "open":
+            handles[op[1]][0] = got
+            if got is None or not hasattr(got, "read"):
+                return [("deb/large/" + sig, where + ": a file object", repr(got))], n
+        elif k == "close":
+            pass
+        elif isinstance(want, bytes):
+            d = _cmp_bytes(want, got)
+            if d:
+                return [("deb/large/" + sig, where + ": " + d[0], d[1])], n
+        elif got != want:
+            return [("deb/large/" + sig, where + ": " + _describe(want), _describe(got))], n
+    return [], n
+
+
+def run_large(u, tier, seed):
+    part = core.Part()
+    spec = large_spec(u["content"], seed)
+    lg = Large(spec)
+    cc = u["cc"]
+    part.states += 1
+    for dc in [d for c, d in large_pairs(u["content"], tier) if c == cc]:
+        part.states += 1
+        part.transitions += 1
+        for order in LARGE_ORDERS[tier]:
+            raw = lg.raw(cc, dc, order)
+            part.states += 1
+            part.transitions += 1
+            for hist in LARGE_HISTORIES[u["content"]]:
+                for chunk in (CHUNK[tier] if hist.startswith("stream") else [0]):
+                    ops = history_ops(hist, lg, chunk)
+                    bad, n = check_history(raw, lg, ops)
+                    part.states += len(ops)
+                    part.transitions += len(ops)
+                    part.traces += 1
+                    part.evaluations += n
+                    part.nontrivial += 1
+                    part.max_depth = max(part.max_depth, len(ops))
+                    case = {"kind": "large", "content": spec, "cc": cc, "dc": dc, "order": list(order), "history": hist,
+                            "ops": ops}
+                    for sig, exp, obs in bad:
+                        part.violation(sig, case, exp, obs, rank=len(ops))
+                    part.outcomes["large %s data=%s -> %s" % (hist, dc, "violating" if bad else "all bytes as packed")] += 1
+                    part.extra["large content %s" % u["content"]] += 1
+                    part.extra["large part sizes: control %s, data %s" % (_bucket(len(_compress_cached(lg.ctar, cc))),
+                                                                          _bucket(len(_compress_cached(lg.dtar, dc))))] += 1
+                    if hist == "data-first" and dc == "xz" and order == (0, 1, 2):
+                        part.sample(case)
+    return part
+
+
+def _bucket(n):
+    return "<= 8 KiB" if n <= 8192 else "8..128 KiB" if n <= 131072 else "> 128 KiB"
+
+
 def run_unit(u, tier, seed):
+    if u["kind"] == "large":
+        return run_large(u, tier, seed)
     part = core.Part()
     if u["kind"] == "defective":
         for names in u["sets"]:
@@ -534,6 +774,9 @@ def run_unit(u, tier, seed):
 def replay(case):
     if case["kind"] == "defective":
         return check_defective(list(case["members"]))[0]
+    if case["kind"] == "large":
+        lg = Large(case["content"])
+        return check_history(lg.raw(case["cc"], case["dc"], tuple(case["order"])), lg, case["ops"])[0]
     content = case["content"]
     pk = Packer(content)
     raw = pk.raw(case["cc"], case["dc"], tuple(case["order"]))
